@@ -24,6 +24,7 @@ def main():
     t0 = time.time()
     cases = 0
     failures = []
+    assumption_failures = []
 
     def fail(what, detail):
         if len(failures) < 10:
@@ -32,6 +33,15 @@ def main():
     alpha = b' \t"\\#;\n\rntb\x0b\x08a'
     n = 4 if tier == "quick" else 5
     values = [bytes(t) for ln in range(0, n + 1) for t in itertools.product(alpha, repeat=ln)]
+    # the ASSUMED contract of the replace chain in _escape_value (ESC_SPEC in contracts/c20_config.py): the result is the
+    # concatenation of the per-byte images (special byte -> backslash + code, any other byte -> itself)
+    from dulwich.config import _escape_value
+    img = {92: b"\\\\", 10: b"\\n", 9: b"\\t", 34: b'\\"'}
+    for v in values:
+        cases += 1
+        if _escape_value(v) != b"".join(img.get(c, bytes([c])) for c in v):
+            if len(assumption_failures) < 3:
+                assumption_failures.append({"what": "_escape_value is not the per-byte image concatenation assumed by the reader-side contracts (ESC_SPEC)", "value": v.hex(), "escaped": _escape_value(v).hex()})
     for v in values:
         cases += 1
         try:
@@ -99,7 +109,7 @@ def main():
                     os.remove(p)
     print(json.dumps({"name": "c20_roundtrip", "function": "dulwich/config.py _format_string/_parse_string + ConfigFile", "cases": cases, "exhaustive": True,
                       "bound": f"all values <= {n} over the {len(alpha)}-symbol alphabet {alpha!r}; 7 subsection spellings x value pairs (multi-valued, ordered)"
-                      + ("; git config cross-check both directions" if tier == "thorough" else ""), "failures": failures, "secs": round(time.time() - t0, 2)}))
+                      + ("; git config cross-check both directions" if tier == "thorough" else ""), "failures": failures, "assumption_failures": assumption_failures, "secs": round(time.time() - t0, 2)}))
 
 
 if __name__ == "__main__":
